@@ -82,6 +82,12 @@ def collect() -> dict:
     t['format_choices'] = _argparse_choices('emsarray.cli.commands.export_geometry', 'format')
     t['missing_points_choices'] = _argparse_choices('emsarray.cli.commands.extract_points', 'missing_points')
     t['version'] = emsarray.__version__
+    # `Command.handle` of the three commands: the library calls in statement order, translated from the AST
+    t['clip_handle_calls'] = _handler_calls('emsarray.cli.commands.clip')
+    t['extract_points_handle_calls'] = _handler_calls('emsarray.cli.commands.extract_points')
+    t['export_geometry_handle_calls'] = _handler_calls('emsarray.cli.commands.export_geometry')
+    # what `hash_geometry` / `make_cache_key` and the three hash helpers feed to the hash object, from their ASTs
+    t.update(_cache_key_tables())
     return t
 
 
@@ -146,6 +152,434 @@ def _argparse_choices(module: str, dest: str) -> dict:
     return {'choices': ['<unavailable>'], 'default': None}
 
 
+# ---- command handlers: the ordered library calls of `Command.handle` ------------------------------------------
+#
+# Every `Call` node of the handler (and every `<dataset>.ems.<property>` access, every subscript of a named
+# table, every `raise`) is classified, in evaluation order of the statements as written:
+#   * callee in HANDLER_VOCAB            → emitted as (kind, canonical text), or dropped when the kind is `ignore`
+#   * callee rooted at `logger`, or in HANDLER_SCAFFOLD → dropped
+#   * anything else                      → ('unknown', '<unknown: …>'), which no theorem accepts
+# Local variables are replaced by a label of what they hold (the second component of the vocabulary entry of the
+# call they were assigned from), so renaming a local changes nothing; `options.<name>` arguments are kept.
+HANDLER_VOCAB = {
+    # canonical callee: (kind, label of the result)
+    'emsarray.open_dataset': ('read', 'dataset'),
+    'pandas.read_csv': ('read', 'dataframe'),
+    'dataset.ems.clip': ('compute', 'clipped'),
+    'point_extraction.extract_dataframe': ('compute', 'points'),
+    'dataset.ems.time_coordinate': ('compute', 'time_coordinate'),
+    'dataset.ems.polygons': ('compute', 'polygons'),
+    'dataset.ems.mask': ('compute', 'mask'),
+    'format_writers[]': ('compute', 'writer'),
+    'self.guess_format': ('fail-check', 'format'),
+    'clipped.ems.to_netcdf': ('write', None),
+    'to_netcdf_with_fixes': ('write', None),
+    'writer': ('write', None),
+    # the rows named in the text of an error message
+    'dataframe.iloc[]': ('ignore', 'dataframe'),
+    'dataframe.head': ('ignore', None),
+}
+#: `raise <this>(…)` is a fail-check; a `raise` of anything else is unknown
+HANDLER_RAISES = {'CommandException'}
+#: calls that are neither library work nor output: builtins used for messages, the work-directory context managers
+HANDLER_SCAFFOLD = {'str', 'len', 'repr', 'contextlib.nullcontext', 'tempfile.TemporaryDirectory'}
+#: every call on these roots is dropped
+HANDLER_IGNORED_ROOTS = {'logger'}
+HANDLER_KINDS = ('read', 'compute', 'fail-check', 'write')
+
+
+def _unknown(text: str) -> tuple:
+    text = ' '.join(str(text).split())
+    return ('unknown', '<unknown: ' + (text if len(text) <= 120 else text[:117] + '...') + '>')
+
+
+class _HandlerWalk:
+    """One pass over the statements of a handler, in order; `self.out` is the emitted list."""
+
+    def __init__(self, imports: dict):
+        import ast
+        self.ast = ast
+        self.imports = imports          # local name of an import → the name it stands for
+        self.env: dict = {}             # local variable → label / `options.<name>`
+        self.label: dict = {}           # id(expression node) → label of its value
+        self.out: list = []
+
+    # -- canonical texts -----------------------------------------------------------------------------------------
+    def dotted(self, node):
+        """`a.b.c` for a pure Name/Attribute chain (root replaced by its label / import target), else None"""
+        ast = self.ast
+        parts = []
+        while isinstance(node, ast.Attribute):
+            parts.append(node.attr)
+            node = node.value
+        if isinstance(node, ast.Name):
+            root = self.env.get(node.id) or self.imports.get(node.id) or node.id
+        elif id(node) in self.label and self.label[id(node)]:
+            root = self.label[id(node)]
+        else:
+            return None
+        return '.'.join([root] + parts[::-1])
+
+    def arg(self, node) -> str:
+        ast = self.ast
+        if isinstance(node, ast.Constant):
+            return repr(node.value)
+        if isinstance(node, ast.Starred):
+            return '*_'
+        if isinstance(node, ast.Name):
+            return self.env.get(node.id, '_')
+        if self.label.get(id(node)):
+            return self.label[id(node)]
+        d = self.dotted(node)
+        if d is not None and d.startswith('options.'):
+            return d
+        return '_'
+
+    def call_text(self, callee: str, node) -> str:
+        args = [self.arg(a) for a in node.args]
+        args += [('**_' if k.arg is None else f'{k.arg}={self.arg(k.value)}') for k in node.keywords]
+        return f'{callee}({", ".join(args)})'
+
+    def emit(self, callee: str, text: str, node) -> None:
+        kind, label = HANDLER_VOCAB[callee]
+        self.label[id(node)] = label
+        if kind != 'ignore':
+            self.out.append((kind, text))
+
+    # -- expressions, children before the node (Python's evaluation order for calls and subscripts) -------------
+    def expr(self, node, callee: bool = False) -> None:
+        ast = self.ast
+        if node is None or isinstance(node, (ast.Name, ast.Constant)):
+            return
+        if isinstance(node, ast.Call):
+            self.expr(node.func, callee=True)
+            for a in node.args:
+                self.expr(a.value if isinstance(a, ast.Starred) else a)
+            for k in node.keywords:
+                self.expr(k.value)
+            d = self.dotted(node.func)
+            if d is None:
+                self.out.append(_unknown('call of ' + ast.unparse(node.func)))
+            elif d.split('.')[0] in HANDLER_IGNORED_ROOTS or d in HANDLER_SCAFFOLD:
+                pass
+            elif d in HANDLER_VOCAB:
+                self.emit(d, self.call_text(d, node), node)
+            else:
+                self.out.append(_unknown(self.call_text(d, node)))
+            return
+        if isinstance(node, ast.Attribute):
+            d = self.dotted(node)
+            if d is None:                       # the chain hangs off a computed value: that value first
+                self.expr(self._root(node))
+                d = self.dotted(node)
+                if d is None:
+                    return
+            parts = d.split('.')
+            if not callee and 'ems' in parts[1:-1]:
+                # `<dataset>.ems.<property>[.more]`: reading the property runs library code
+                head = '.'.join(parts[:parts.index('ems', 1) + 2])
+                if head in HANDLER_VOCAB:
+                    self.emit(head, head, node)
+                else:
+                    self.out.append(_unknown(head))
+            elif not callee:
+                self.label[id(node)] = self.label.get(id(self._root(node)))
+            return
+        if isinstance(node, ast.Subscript):
+            self.expr(node.value)
+            self.expr(node.slice)
+            d = None if self.label.get(id(node.value)) else self.dotted(node.value)
+            if d is None:                       # an element of a value that was already accounted for
+                self.label[id(node)] = self.label.get(id(node.value))
+            elif d + '[]' in HANDLER_VOCAB:
+                self.emit(d + '[]', f'{d}[{self.arg(node.slice)}]', node)
+            elif d.split('.')[0] != 'options':
+                self.out.append(_unknown(f'{d}[{self.arg(node.slice)}]'))
+            return
+        if isinstance(node, (ast.Lambda, ast.Await, ast.Yield, ast.YieldFrom, ast.NamedExpr)):
+            self.out.append(_unknown('expression ' + type(node).__name__))
+            return
+        for child in ast.iter_child_nodes(node):
+            if isinstance(child, ast.expr):
+                self.expr(child)
+            elif isinstance(child, ast.comprehension):
+                self.out.append(_unknown('comprehension'))
+            elif isinstance(child, ast.keyword):
+                self.expr(child.value)
+
+    def _root(self, node):
+        while isinstance(node, self.ast.Attribute):
+            node = node.value
+        return node
+
+    def bind(self, target, value) -> None:
+        ast = self.ast
+        if not isinstance(target, ast.Name):
+            if target is not None:
+                self.out.append(_unknown('assignment to ' + ast.unparse(target)))
+            return
+        if value is None:
+            return
+        new = self.label.get(id(value))
+        if new is None:
+            if isinstance(value, ast.Name) and value.id in self.env:
+                new = self.env[value.id]
+            else:
+                d = self.dotted(value)
+                if d is not None and d.startswith('options.'):
+                    new = d
+        if new is not None:
+            self.env[target.id] = new       # a later assignment of a constant does not take the label away
+
+    # -- statements ----------------------------------------------------------------------------------------------
+    def block(self, stmts, handling=None) -> None:
+        for st in stmts:
+            self.stmt(st, handling)
+
+    def stmt(self, st, handling=None) -> None:
+        ast = self.ast
+        if isinstance(st, ast.Expr):
+            if not (isinstance(st.value, ast.Constant) and isinstance(st.value.value, str)):
+                self.expr(st.value)
+        elif isinstance(st, ast.Assign):
+            self.expr(st.value)
+            for tg in st.targets:
+                self.bind(tg, st.value)
+        elif isinstance(st, ast.AnnAssign):
+            self.expr(st.value)
+            self.bind(st.target, st.value)
+        elif isinstance(st, ast.If):
+            self.expr(st.test)
+            self.block(st.body, handling)
+            self.block(st.orelse, handling)
+        elif isinstance(st, ast.With):
+            for item in st.items:
+                self.expr(item.context_expr)
+                self.bind(item.optional_vars, item.context_expr)
+            self.block(st.body, handling)
+        elif isinstance(st, ast.Try):
+            self.block(st.body, handling)
+            for h in st.handlers:
+                self.block(h.body, 'any exception' if h.type is None else ast.unparse(h.type))
+            self.block(st.orelse, handling)
+            self.block(st.finalbody, handling)
+        elif isinstance(st, ast.Raise):
+            exc = st.exc
+            name = None
+            if isinstance(exc, ast.Call):
+                for a in exc.args:
+                    self.expr(a)
+                for k in exc.keywords:
+                    self.expr(k.value)
+                name = self.dotted(exc.func)
+            elif exc is not None:
+                name = self.dotted(exc)
+            if name in HANDLER_RAISES:
+                self.out.append(('fail-check', f'raise {name}' + (f' on {handling}' if handling else '')))
+            else:
+                self.out.append(_unknown('raise ' + (ast.unparse(exc) if exc is not None else '')))
+        elif isinstance(st, ast.Pass) or (isinstance(st, ast.Return) and st.value is None):
+            pass
+        else:
+            self.out.append(_unknown('statement ' + type(st).__name__))
+
+
+def _module_imports(tree) -> dict:
+    import ast
+    names = {}
+    for st in tree.body:
+        if isinstance(st, ast.Import):
+            for a in st.names:
+                if a.asname:
+                    names[a.asname] = a.name
+        elif isinstance(st, ast.ImportFrom):
+            for a in st.names:
+                if a.asname:
+                    names[a.asname] = a.name
+    return names
+
+
+def _handler_calls(module: str) -> list:
+    """(kind, call) for every library call of `Command.handle` of one command module, in statement order"""
+    import ast
+    import importlib
+    import inspect
+    import textwrap
+    try:
+        mod = importlib.import_module(module)
+        tree = ast.parse(inspect.getsource(mod))
+        fn = ast.parse(textwrap.dedent(inspect.getsource(mod.Command.handle))).body[0]
+        walk = _HandlerWalk(_module_imports(tree))
+        walk.block(fn.body)
+        return walk.out if walk.out else [_unknown('empty handler')]
+    except Exception as e:       # never crash the run: a table no theorem accepts
+        return [_unknown(f'translator error {type(e).__name__}: {e}')]
+
+
+# ---- cache key: what is fed to the hash object, in which order ------------------------------------------------
+#
+# `Convention.hash_geometry`, `make_cache_key`, `hash_string`, `hash_attributes` and `hash_int` are straight-line
+# code over a hash object: each is translated, statement by statement, into (hash function, canonical text of what
+# is hashed).  Local variables are inlined (so a rename changes nothing), the text is `ast.unparse` of the argument.
+# A statement of any other form becomes ('unknown', '<unknown: …>').
+HASH_FUNCS = ('hash_string', 'hash_int', 'hash_attributes')
+
+
+def _hash_stream(body, hashvar: str, aliases: dict) -> list:
+    import ast
+    import copy
+
+    class Inline(ast.NodeTransformer):
+        def visit_Name(self, node):
+            if isinstance(node.ctx, ast.Load) and node.id in aliases:
+                return copy.deepcopy(aliases[node.id])
+            return node
+
+    def text(node) -> str:
+        return ast.unparse(Inline().visit(copy.deepcopy(node)))
+
+    def feeds_hash(node) -> bool:
+        """does the expression touch the hash object or call one of the hash functions?"""
+        for n in ast.walk(node):
+            if isinstance(n, ast.Name) and (n.id == hashvar or n.id in HASH_FUNCS):
+                return True
+        return False
+
+    out = []
+    for st in body:
+        if isinstance(st, ast.Expr) and isinstance(st.value, ast.Constant) and isinstance(st.value.value, str):
+            continue                                                    # docstring
+        if isinstance(st, (ast.Assign, ast.AnnAssign)):
+            targets = st.targets if isinstance(st, ast.Assign) else [st.target]
+            if len(targets) == 1 and isinstance(targets[0], ast.Name) and st.value is not None \
+                    and targets[0].id != hashvar and not feeds_hash(st.value):
+                aliases[targets[0].id] = Inline().visit(copy.deepcopy(st.value))
+                aliases.setdefault('<first>', targets[0].id)
+                continue
+            out.append(_unknown(ast.unparse(st)))
+            continue
+        if isinstance(st, ast.Expr) and isinstance(st.value, ast.Call):
+            call = st.value
+            plain = not call.keywords and not any(isinstance(a, ast.Starred) for a in call.args)
+            if plain and isinstance(call.func, ast.Name) and call.func.id in HASH_FUNCS and len(call.args) == 2 \
+                    and isinstance(call.args[0], ast.Name) and call.args[0].id == hashvar \
+                    and not feeds_hash(call.args[1]):
+                out.append((call.func.id, text(call.args[1])))
+                continue
+            if plain and isinstance(call.func, ast.Attribute) and call.func.attr == 'update' and len(call.args) == 1 \
+                    and isinstance(call.func.value, ast.Name) and call.func.value.id == hashvar \
+                    and not feeds_hash(call.args[0]):
+                out.append(('update', text(call.args[0])))
+                continue
+            if plain and isinstance(call.func, ast.Attribute) and call.func.attr == 'hash_geometry' \
+                    and len(call.args) == 1 and isinstance(call.args[0], ast.Name) and call.args[0].id == hashvar \
+                    and not feeds_hash(call.func.value):
+                out.append(('hash_geometry', text(call.func.value)))
+                continue
+            out.append(_unknown(ast.unparse(st)))
+            continue
+        if isinstance(st, ast.If):
+            # `if hash is None: hash = <a default hash object>` chooses the hash function, which is a parameter
+            if isinstance(st.test, ast.Compare) and isinstance(st.test.left, ast.Name) and st.test.left.id == hashvar \
+                    and len(st.test.ops) == 1 and isinstance(st.test.ops[0], ast.Is) \
+                    and isinstance(st.test.comparators[0], ast.Constant) and st.test.comparators[0].value is None \
+                    and not st.orelse and len(st.body) == 1 and isinstance(st.body[0], ast.Assign) \
+                    and len(st.body[0].targets) == 1 and isinstance(st.body[0].targets[0], ast.Name) \
+                    and st.body[0].targets[0].id == hashvar:
+                continue
+            if feeds_hash(st.test):
+                out.append(_unknown('if ' + ast.unparse(st.test)))
+                continue
+            out.append(('if', text(st.test)))
+            out += _hash_stream(st.body, hashvar, aliases)
+            out.append(('else', ''))
+            out += _hash_stream(st.orelse, hashvar, aliases)
+            out.append(('endif', ''))
+            continue
+        if isinstance(st, ast.With):
+            if any(feeds_hash(i.context_expr) or i.optional_vars is not None for i in st.items):
+                out.append(_unknown('with ' + ', '.join(ast.unparse(i) for i in st.items)))
+                continue
+            out.append(('with', ', '.join(text(i.context_expr) for i in st.items)))
+            out += _hash_stream(st.body, hashvar, aliases)
+            continue
+        if isinstance(st, ast.For):
+            if isinstance(st.target, ast.Name) and not st.orelse and not feeds_hash(st.iter):
+                out.append(('for', text(st.iter)))
+                inner = dict(aliases)
+                inner.pop('<first>', None)
+                inner[st.target.id] = ast.Name(id='name', ctx=ast.Load())
+                fields = _hash_stream(st.body, hashvar, inner)
+                # the first local of the loop body (the data array) is called `var` in the texts
+                first = inner.get('<first>')
+                if first is not None:
+                    var_text = ast.unparse(inner[first])
+                    out.append(('var', var_text))
+                    fields = [(f, x.replace(var_text, 'var')) for f, x in fields]
+                out += fields
+                out.append(('endfor', ''))
+                continue
+            out.append(_unknown('for ' + ast.unparse(st.target) + ' in ' + ast.unparse(st.iter)))
+            continue
+        if isinstance(st, ast.Raise) and st.cause is None:
+            out.append(('raise', '' if st.exc is None else text(st.exc)))
+            continue
+        if isinstance(st, ast.Return):
+            out.append(('return', '' if st.value is None else text(st.value)))
+            continue
+        if isinstance(st, ast.Pass):
+            continue
+        out.append(_unknown('statement ' + type(st).__name__ + ': ' + ast.unparse(st)))
+    return out
+
+
+def _hash_function_stream(obj) -> list:
+    """the stream of one function whose first parameter after `self` / the dataset named `hash` is the hash object"""
+    import ast
+    import inspect
+    import textwrap
+    try:
+        fn = ast.parse(textwrap.dedent(inspect.getsource(obj))).body[0]
+        params = [a.arg for a in fn.args.args]
+        if 'hash' not in params:
+            return [_unknown('no parameter called hash in ' + fn.name)]
+        out = _hash_stream(fn.body, 'hash', {})
+        return out if out else [_unknown('empty function ' + fn.name)]
+    except Exception as e:
+        return [_unknown(f'translator error {type(e).__name__}: {e}')]
+
+
+def _cache_key_tables() -> dict:
+    r = {}
+    try:
+        from emsarray.conventions import _base
+        from emsarray.operations import cache
+        geom = _hash_function_stream(_base.Convention.hash_geometry)
+        key = _hash_function_stream(cache.make_cache_key)
+        r['hash_string_calls'] = _hash_function_stream(cache.hash_string)
+        r['hash_attributes_calls'] = _hash_function_stream(cache.hash_attributes)
+        r['hash_int_calls'] = _hash_function_stream(cache.hash_int)
+    except Exception as e:
+        bad = [_unknown(f'translator error {type(e).__name__}: {e}')]
+        return {k: bad for k in ('hash_geometry_over', 'hash_geometry_fields', 'make_cache_key_calls',
+                                 'cache_key_trailer', 'hash_string_calls', 'hash_attributes_calls', 'hash_int_calls')}
+    # hash_geometry: [for, var, field…, endfor] and nothing else
+    if len(geom) >= 3 and geom[0][0] == 'for' and geom[1][0] == 'var' and geom[-1] == ('endfor', '') \
+            and all(f in HASH_FUNCS + ('update', 'unknown') for f, _ in geom[2:-1]):
+        r['hash_geometry_over'] = geom[:2]
+        r['hash_geometry_fields'] = geom[2:-1]
+    else:
+        r['hash_geometry_over'] = [_unknown('hash_geometry is not one loop over the geometry names')]
+        r['hash_geometry_fields'] = geom
+    # make_cache_key: [hash_geometry, trailer…, return]
+    r['make_cache_key_calls'] = key
+    if len(key) >= 2 and key[0][0] == 'hash_geometry' and key[-1][0] == 'return':
+        r['cache_key_trailer'] = key[1:-1]
+    else:
+        r['cache_key_trailer'] = [_unknown('make_cache_key is not hash_geometry, trailer, return')] + key
+    return r
+
+
 def render(t: dict) -> str:
     def opt_nat(v):
         return 'none' if v is None else f'(some {v})'
@@ -179,11 +613,40 @@ def render(t: dict) -> str:
         f"def formatDefault : Option String := {'none' if t['format_choices']['default'] is None else '(some ' + lean_str(t['format_choices']['default']) + ')'}",
         f"def missingPointsChoices : List String := {lean_list(t['missing_points_choices']['choices'])}",
         f"def missingPointsDefault : Option String := {'none' if t['missing_points_choices']['default'] is None else '(some ' + lean_str(t['missing_points_choices']['default']) + ')'}",
+    ]
+    lines += _render_more(t)
+    lines += [
         '',
         'end Ems.Gen',
         '',
     ]
     return '\n'.join(lines)
+
+
+def _render_more(t: dict) -> list:
+    """definitions added after the first tables (kept apart so that the earlier lines stay byte-identical)"""
+    def pairs(name, doc, items):
+        return [f'/-- {doc} -/',
+                f'def {name} : List (String × String) := ['
+                + ', '.join(f'({lean_str(a)}, {lean_str(b)})' for a, b in items) + ']']
+    lines = []
+    lines += pairs('clipHandleCalls', '`Command.handle` of `commands/clip.py`, translated from its AST: (kind, library call) in statement order',
+                   t['clip_handle_calls'])
+    lines += pairs('extractPointsHandleCalls', '`Command.handle` of `commands/extract_points.py`, likewise',
+                   t['extract_points_handle_calls'])
+    lines += pairs('exportGeometryHandleCalls', '`Command.handle` of `commands/export_geometry.py`, likewise',
+                   t['export_geometry_handle_calls'])
+    lines += pairs('hashGeometryOver', '`Convention.hash_geometry`, translated from its AST: what the loop runs over, and what `var` is in the texts below',
+                   t['hash_geometry_over'])
+    lines += pairs('hashGeometryFields', 'the loop body of `hash_geometry`: (hash function, what is hashed) in statement order; `name` = the loop variable',
+                   t['hash_geometry_fields'])
+    lines += pairs('makeCacheKeyCalls', '`make_cache_key`, likewise (the choice of the default hash object left out)',
+                   t['make_cache_key_calls'])
+    lines += pairs('cacheKeyTrailer', 'what `make_cache_key` hashes after the geometry', t['cache_key_trailer'])
+    lines += pairs('hashStringCalls', '`hash_string`', t['hash_string_calls'])
+    lines += pairs('hashAttributesCalls', '`hash_attributes` (local constants inlined)', t['hash_attributes_calls'])
+    lines += pairs('hashIntCalls', '`hash_int`', t['hash_int_calls'])
+    return lines
 
 
 def regenerate() -> bool:
